@@ -539,6 +539,62 @@ impl Gen {
     }
 }
 
+fn run_history(g: &mut Gen, churn: bool, steps: usize, plateau: &mut Vec<Vec<u64>>) {
+    let hist = g.hist;
+    g.after("create", Kind::Opaque);
+    if churn {
+        // steady churn: the same keys rewritten every round, a reader held across some rounds;
+        // the allocated count after quiescence must plateau
+        let mut series = vec![];
+        for round in 0..12u64 {
+            if g.dead {
+                break;
+            }
+            if round % 4 == 1 {
+                g.begin_read();
+            }
+            g.begin_write();
+            if round % 3 == 2 {
+                g.w.wtx.as_mut().unwrap().set_durability(Durability::None).unwrap();
+                g.immediate = false;
+                g.after("set_durability none", Kind::Nop);
+            }
+            {
+                let t = g.w.wtx.as_ref().unwrap();
+                let mut tab = t.open_table(TABLES[0]).unwrap();
+                for k in 0..40u64 {
+                    let v = vec![(round & 0xff) as u8; 120];
+                    tab.insert(k, v.as_slice()).unwrap();
+                }
+            }
+            g.after("insert t0 n=40 size=120", Kind::Mut);
+            g.commit();
+            if round % 4 == 3 {
+                g.quiesce();
+                if let Ok(o) = g.w.observe() {
+                    series.push(o.db.mem.allocated_page_count);
+                }
+            }
+        }
+        if series.len() >= 3 {
+            let first = series[0];
+            let last = *series.last().unwrap();
+            if last > first + first / 4 + 4 {
+                g.viol.push(format!("h{hist}: allocated pages keep growing under steady churn: {series:?}"));
+            }
+        }
+        plateau.push(series);
+    } else {
+        for _ in 0..steps {
+            if g.dead {
+                break;
+            }
+            g.step_once();
+        }
+        g.quiesce();
+    }
+}
+
 fn main() {
     silence_panics();
     let args: Vec<String> = std::env::args().collect();
@@ -579,57 +635,13 @@ fn main() {
             sigs: BTreeSet::new(),
         };
         writeln!(g.trace, "H {hist} page={} region_pages={}", cfg.0, cfg.1).unwrap();
-        g.after("create", Kind::Opaque);
-        if churn {
-            // steady churn: the same keys rewritten every round, a reader held across some rounds;
-            // the allocated count after quiescence must plateau
-            let mut series = vec![];
-            for round in 0..12u64 {
-                if g.dead {
-                    break;
-                }
-                if round % 4 == 1 {
-                    g.begin_read();
-                }
-                g.begin_write();
-                if round % 3 == 2 {
-                    g.w.wtx.as_mut().unwrap().set_durability(Durability::None).unwrap();
-                    g.immediate = false;
-                    g.after("set_durability none", Kind::Nop);
-                }
-                {
-                    let t = g.w.wtx.as_ref().unwrap();
-                    let mut tab = t.open_table(TABLES[0]).unwrap();
-                    for k in 0..40u64 {
-                        let v = vec![(round & 0xff) as u8; 120];
-                        tab.insert(k, v.as_slice()).unwrap();
-                    }
-                }
-                g.after("insert t0 n=40 size=120", Kind::Mut);
-                g.commit();
-                if round % 4 == 3 {
-                    g.quiesce();
-                    if let Ok(o) = g.w.observe() {
-                        series.push(o.db.mem.allocated_page_count);
-                    }
-                }
-            }
-            if series.len() >= 3 {
-                let first = series[0];
-                let last = *series.last().unwrap();
-                if last > first + first / 4 + 4 {
-                    g.viol.push(format!("h{hist}: allocated pages keep growing under steady churn: {series:?}"));
-                }
-            }
-            plateau.push(series);
-        } else {
-            for _ in 0..steps {
-                if g.dead {
-                    break;
-                }
-                g.step_once();
-            }
-            g.quiesce();
+        // a panic inside the engine on a valid API sequence (e.g. a debug assertion about a page
+        // that is freed twice or still referenced) ends the history and is reported with it
+        let res = catch(|| run_history(&mut g, churn, steps, &mut plateau));
+        if let Err(msg) = res {
+            let last = g.log.last().cloned().unwrap_or_default();
+            g.viol.push(format!("h{} s{}: engine panicked after `{}`: {}", hist, g.step, last, msg.chars().take(300).collect::<String>()));
+            g.dead = true;
         }
         states += g.step;
         trace.push_str(&g.trace);
@@ -649,9 +661,13 @@ fn main() {
             sigs.insert(s);
         }
         max_regions = max_regions.max(g.max_regions_touched);
-        // release in a safe order
-        g.w.wtx.take().map(|t| t.abort());
-        g.w.pins.clear();
+        if g.dead {
+            // the engine may be in a poisoned state: do not run its destructors
+            std::mem::forget(g.w);
+        } else {
+            g.w.wtx.take().map(|t| t.abort());
+            g.w.pins.clear();
+        }
     }
     std::fs::write("trace.txt", trace).unwrap();
     std::fs::write("rust_viol.txt", viol.join("\n")).unwrap();
